@@ -802,6 +802,25 @@ _re_plain_sheet = regex.compile(r'^[^\\W\\d][\\w\\.]*$')
         sheet = "'%s'" % sheet.replace("'", "''")""")],
     clears='formulas/tokens/operand.py::_build_sheet_id::quoting predicate weaker than the reader')
 
+# ---------------------------------------------------------------- C09
+add('c09-to-dict-fix-reverted', 'C09', 'break', [(EXCEL, """'="%s"' % v.replace(
+                '"', '""'
+            ) or v""", """'="%s"' % v or v""")], expect='C09.quote')
+add('c09-string-expr-unescaped', 'C09', 'break', [(OPERAND, """    def set_expr(self, *tokens):
+        self.attr['expr'] = '"%s"' % self.name""", """    def set_expr(self, *tokens):
+        self.attr['expr'] = '"%s"' % self.compile()""")], expect='C09.quote')
+add('c09-address-sheet-not-doubled', 'C09', 'break', [(LOOK, """        address = "'{}'!{}".format(str(sheet_text).replace("'", "''"), address)""", """        address = "'{}'!{}".format(str(sheet_text), address)""")], expect='C09.quote')
+add('c09-hexvalue-branch-dropped', 'C09', 'break', [(EXCEL, """            if isinstance(v, dict):
+                if v['type'] == 'HexValue':
+                    v = HexValue(v['value'])
+""", "")], expect='C09.tags')
+add('c09-empty-marker-spelling', 'C09', 'break', [(EXCEL, """            k: '#EMPTY' if v == [[sh.EMPTY]] else v""", """            k: '#BLANK' if v == [[sh.EMPTY]] else v""")], expect='C09.tags')
+add('c09-hexvalue-type-renamed-writer', 'C09', 'break', [(EXCEL, """                'type': 'HexValue', 'value': v""", """                'type': 'Hex', 'value': v""")], expect='C09.tags')
+add('c09-typed-key-renamed-writer', 'C09', 'break', [(EXCEL, """                'type': 'HexValue', 'value': v""", """                'type': 'HexValue', 'val': v""")], expect='C09.tags')
+add('c09-benign-redouble-via-local', 'C09', 'benign', [(LOOK, """        address = "'{}'!{}".format(str(sheet_text).replace("'", "''"), address)""", """        quoted = str(sheet_text).replace("'", "''")
+        address = "'{}'!{}".format(quoted, address)""")])
+add('c09-benign-marker-renamed-both', 'C09', 'benign', [(EXCEL, """            k: '#EMPTY' if v == [[sh.EMPTY]] else v""", """            k: '#BLANK' if v == [[sh.EMPTY]] else v"""), (EXCEL, """            if isinstance(v, str) and v.upper() == '#EMPTY':""", """            if isinstance(v, str) and v.upper() == '#BLANK':""")])
+
 if __name__ == '__main__':
     here = os.path.dirname(os.path.abspath(__file__))
     ids = [v['id'] for v in V]
